@@ -50,7 +50,9 @@ type permCase struct {
 	Ps   []permJ `json:"ps"`
 	Req  permJ   `json:"req"`
 	Exp  struct {
-		Allowed bool `json:"allowed"`
+		Allowed bool `json:"allowed"` // the transcribed code's answer (implementation layer)
+		May     bool `json:"may"`     // contract: some permission satisfies the statement's necessary condition
+		Must    bool `json:"must"`    // contract: some permission is an unambiguous grant
 	} `json:"exp"`
 }
 
@@ -117,6 +119,7 @@ func runPerm(raw json.RawMessage, env *rt.Env) rt.Result {
 		use = all[:1]
 	}
 	evals := 0
+	drift := map[string]bool{}
 	nontrivial := false
 	for _, p := range c.Ps {
 		if p.Act == c.Req.Act {
@@ -129,30 +132,46 @@ func runPerm(raw json.RawMessage, env *rt.Env) rt.Result {
 			ps[i] = sc.perm(p)
 		}
 		req := sc.perm(c.Req)
-		got := influxdb.PermissionSet(ps).Allowed(req)
-		evals++
-		if got != c.Exp.Allowed {
-			return rt.Fail(0, fmt.Sprintf("PermissionSet%v.Allowed(%v) = %v, specification says %v (id scheme %s)", ps, req, got, c.Exp.Allowed, sc.name), got, c.Exp.Allowed)
-		}
-		if g2 := influxdb.PermissionAllowed(req, ps); g2 != c.Exp.Allowed {
-			return rt.Fail(0, fmt.Sprintf("PermissionAllowed(%v, %v) = %v, specification says %v (id scheme %s)", req, ps, g2, c.Exp.Allowed, sc.name), g2, c.Exp.Allowed)
-		}
-		evals++
-		if len(ps) == 1 {
+		// contract: granted only if named (may), and granted whenever unambiguously named (must); the region in between
+		// (permission with org AND id, same org, other id) is unspecified: a difference from the model there is drift
+		check := func(what string, got bool) *rt.Result {
 			evals++
-			if g3 := ps[0].Matches(req); g3 != c.Exp.Allowed {
-				return rt.Fail(0, fmt.Sprintf("(%v).Matches(%v) = %v, specification says %v (id scheme %s)", ps[0], req, g3, c.Exp.Allowed, sc.name), g3, c.Exp.Allowed)
+			if got && !c.Exp.May {
+				r := rt.Fail(0, fmt.Sprintf("%s granted %v with %v although no permission names it (id scheme %s)", what, req, ps, sc.name), got, false)
+				return &r
+			}
+			if !got && c.Exp.Must {
+				r := rt.Fail(0, fmt.Sprintf("%s refused %v although %v grants it unambiguously (id scheme %s)", what, req, ps, sc.name), got, true)
+				return &r
+			}
+			if got != c.Exp.Allowed {
+				drift[what+" differs from the model inside the unspecified region (org+id permission, same org, other id)"] = true
+			}
+			return nil
+		}
+		if r := check("PermissionSet.Allowed", influxdb.PermissionSet(ps).Allowed(req)); r != nil {
+			return *r
+		}
+		if r := check("PermissionAllowed", influxdb.PermissionAllowed(req, ps)); r != nil {
+			return *r
+		}
+		if len(ps) == 1 {
+			if r := check("Permission.Matches", ps[0].Matches(req)); r != nil {
+				return *r
 			}
 		}
-		if len(ps) == 2 {
-			// the answer must not depend on the order of the list
-			evals++
-			if g4 := influxdb.PermissionSet([]influxdb.Permission{ps[1], ps[0]}).Allowed(req); g4 != c.Exp.Allowed {
-				return rt.Fail(0, fmt.Sprintf("reversed PermissionSet.Allowed(%v) = %v, specification says %v", req, g4, c.Exp.Allowed), g4, c.Exp.Allowed)
+		if len(ps) == 2 { // the answer must not depend on the order of the list
+			if r := check("PermissionSet.Allowed (reversed list)", influxdb.PermissionSet([]influxdb.Permission{ps[1], ps[0]}).Allowed(req)); r != nil {
+				return *r
 			}
 		}
 	}
-	return rt.Result{OK: true, Evals: evals, Nontrivial: nontrivial}
+	var dl []string
+	for d := range drift {
+		dl = append(dl, d)
+	}
+	sort.Strings(dl)
+	return rt.Result{OK: true, Evals: evals, Nontrivial: nontrivial, Drift: dl}
 }
 
 // ---------------------------------------------------------------------------------------------- C29
